@@ -19,6 +19,13 @@ search : when an obligation fails, `find_conflict` (vm_compute) names two iterat
          loop bound give problem sizes on both sides of every threshold; the public-API methods whose headers
          include the region's file are run through tapkee::embed (harness/c15_embed.cpp, fixed random stream)
          under 1, 2, 8 and 16 threads; a difference from the 1-thread run is the replay.
+team   : (wave 3) WHO runs the iterations: the translator also emits, for every region and every worksharing construct, a
+         distribution descriptor (Par_Team_Model.dist: `omp for` inside / outside an `omp parallel` of the same function; a
+         hand-made cyclic schedule with the source of its first iteration and stride); obligation gen_dists_ok: all accepted
+         (c15_dist_ok_valid: a valid assignment for every team size 1..max).  Confirmation runs in four more execution
+         contexts: the routine called from INSIDE a `#pragma omp parallel num_threads(3)` region of the harness (each outer
+         thread on its own data set; nested parallelism off and on), omp_set_dynamic(1) with more threads than processors,
+         and a second invocation under OMP_THREAD_LIMIT=2 OMP_NUM_THREADS=4; every result must be the serial one.
 always : besides the generated cases, five-combination runs of large cases (triangulate with 3000 landmarks,
          Barnes-Hut and exact t-SNE — a sentinel region: no OpenMP there on the pinned tree); thorough tier:
          tapkee::embed of 8 methods + t-SNE (N = 1200) + Landmark MDS with 3036 landmarks + Landmark Isomap.
@@ -60,6 +67,13 @@ TRUSTED = [
     "#include closure of include/tapkee/methods/*.hpp; sizes come from the region's `if (...)` clause; the oracle is "
     "bitwise / tolerance comparison with the 1-thread run under a fixed random stream (std::srand + hook H1); t-SNE is "
     "stopped after 51 iterations by an exception thrown from the harness' logger (TSNE::run has a constant 1000)",
+    "wave 3: an `omp for` lexically inside an `omp parallel` of the same function is executed exactly once per iteration "
+    "by the team that runs the region, whatever its size (OpenMP's guarantee, the hypothesis env_ok/e_sched of "
+    "c15_dist_ok_valid); for hand-made schedules the assignment is COMPUTED from the descriptor (cyclic_asg) — the "
+    "translator's reading of where `first` and `step` come from (omp_get_thread_num / omp_get_num_threads inside the "
+    "region, omp_get_max_threads, a value read before the region) is a source-level pattern match, cross-checked with clang's AST",
+    "execution contexts exercised: top level; inside an outer parallel region of 3 threads (nested off / on); dynamic "
+    "adjustment; OMP_THREAD_LIMIT=2; the model quantifies over every team size 1..omp_get_max_threads()",
     "OpenMP runtime: a critical section is atomic, the end of the parallel region is a barrier; data-race-free "
     "programs are sequentially consistent (C++/OpenMP memory model)",
     "Eigen's own threading is not modelled (results of Eigen kernels inside one iteration are taken as values)",
@@ -79,9 +93,18 @@ REGION_OF_FUNC = {   # descriptor name fragment -> harness region(s)
     "linear_weight_matrix#1": ["klle"], "hessian_weight_matrix#1": ["hlle"],
     "triangulate#1": ["tri"], "matrix_from_callback#1": ["cli"],
 }
-COMBOS_QUICK = ["1:1:0", "2:1:0", "2:2:1", "3:1:0", "3:2:1", "3:1:1", "8:1:0", "8:2:1", "8:3:0", "16:1:0", "16:2:1"]
+# threads:schedule kind:chunk[:context]   context 1 = called from inside an outer parallel region of 3 threads, nested
+# off; 2 = the same, nested on; 3 = omp_set_dynamic(1)   (harness/c15.cpp)
+CONTEXT_COMBOS = ["4:1:0:1", "3:2:1:1", "4:1:0:2", "2:2:1:2", "32:1:0:3", "16:2:1:3"]
+CONTEXT_NAMES = {0: "top level", 1: "called from inside an outer `omp parallel num_threads(3)` region, nested parallelism off",
+                 2: "called from inside an outer `omp parallel num_threads(3)` region, nested parallelism on",
+                 3: "omp_set_dynamic(1)"}
+COMBOS_QUICK = ["1:1:0", "2:1:0", "2:2:1", "3:1:0", "3:2:1", "3:1:1", "8:1:0", "8:2:1", "8:3:0", "16:1:0", "16:2:1"] + CONTEXT_COMBOS
 COMBOS_THOROUGH = COMBOS_QUICK + ["2:3:0", "3:3:0", "5:2:2", "8:1:1", "16:3:0", "16:1:1", "7:2:3"] + \
-    ["%d:2:1" % t for t in (4, 6, 9, 10, 11, 12, 13, 14, 15)]      # every thread count 1..16 appears
+    ["%d:2:1" % t for t in (4, 6, 9, 10, 11, 12, 13, 14, 15)] + ["8:1:0:1", "8:2:1:2", "3:3:0:2", "64:2:1:3"]      # every thread count 1..16 appears
+# second invocation: the process starts with a thread limit below the thread count it asks for (t = 0: the environment's)
+LIMIT_ENV = {"OMP_THREAD_LIMIT": "2", "OMP_NUM_THREADS": "4"}
+LIMIT_COMBOS = ["1:1:0", "0:1:0", "8:2:1", "4:1:1", "4:1:0:1", "4:1:0:2", "16:1:0:3"]
 TOL = 1e-10
 LARGE_COMBOS = ["1:1:0", "2:1:0", "8:1:0", "16:1:0", "8:2:1"]
 LARGE_TRI = (3300, 10, 2, 3000)     # (N, k, d, landmarks): bit-packed / word-sharing races need thousands of landmarks
@@ -141,6 +164,9 @@ Lemma gen_iso_shapes :
   Forall (fun r => iso_shape r = true) (filter is_iso_region regions) /\\
   List.length (filter is_iso_region regions) = 4%nat.
 Proof. split; [vm_compute; repeat constructor|vm_compute; reflexivity]. Qed.
+From TK Require Import Par_Team_Model.
+Lemma gen_dists_ok : forallb (fun p => dist_ok (snd p)) dists = true /\\ map fst dists = map r_name regions.
+Proof. split; vm_compute; reflexivity. Qed.
 """
 
 
@@ -153,13 +179,14 @@ def check_current_table(ctx, tr, text):
     open(os.path.join(gdir, "GenCur.v"), "w").write(GEN_OBLIGATIONS)
     n = len(tr["regions"])
     srch = ["From Coq Require Import ZArith List String Bool.", "Import ListNotations.",
-            "From TK Require Import Par_Region_Model.", "From CUR Require Import OmpCur.",
+            "From TK Require Import Par_Region_Model Par_Team_Model.", "From CUR Require Import OmpCur.",
             "Local Open Scope Z_scope."]
     for i in range(n):
         srch.append("Eval vm_compute in (check_shared (r_shared region_%d))." % i)
         srch.append("Eval vm_compute in (find_conflict region_%d)." % i)
         srch.append("Eval vm_compute in (map p_name (filter (fun p => negb (pvar_ok p) || "
                     "negb (pclass_ok (classify (p_events p)))) (r_private region_%d)))." % i)
+    srch.append("Eval vm_compute in (map (fun p => dist_ok (snd p)) dists).")
     srch.append("Eval vm_compute in gen_hlle_found.")
     srch.append("Eval vm_compute in (map (fun d => hlle_cols_ok gen_hlle_step gen_hlle_col d) (seq 1 6)).")
     srch.append("Eval vm_compute in (map (fun d => hlle_written gen_hlle_step gen_hlle_col d) (seq 1 4)).")
@@ -188,10 +215,14 @@ def check_current_table(ctx, tr, text):
                      "v1": int(m.group(4)), "v2": int(m.group(5))}
             regs.append({"name": tr["regions"][i]["name"], "shared_ok": a.startswith("true"), "witness": w,
                          "stale": re.findall(r'"([^"]*)"', c)})
+        dok = re.findall(r"true|false", vals[3 * n])
+        for i, rg in enumerate(regs):
+            rg["dist_ok"] = (dok[i] == "true") if i < len(dok) and len(dok) == n else False
+            rg["dist"] = tr["regions"][i].get("dist")
         det["regions"] = regs
-        det["hlle_found"] = vals[3 * n].startswith("true")
-        det["hlle_ok_by_d"] = re.findall(r"true|false", vals[3 * n + 1])
-        det["hlle_written"] = vals[3 * n + 2][:400]
+        det["hlle_found"] = vals[3 * n + 1].startswith("true")
+        det["hlle_ok_by_d"] = re.findall(r"true|false", vals[3 * n + 2])
+        det["hlle_written"] = vals[3 * n + 3][:400]
     else:
         det["search_error"] = e2[-800:]
     return ok1, det
@@ -338,7 +369,9 @@ def run_cases(ctx, exe, cases, combos, timeout=900, env=None):
                     res[int(w[1])]["rows"].append({"t": int(w[2]), "k": int(w[3]), "c": int(w[4]), "hash": w[5],
                                                     "n": int(w[6]), "maxd": float.fromhex(w[7]) if w[7] not in ("inf", "nan", "-nan") else float("inf"),
                                                     "maxr": float.fromhex(w[8]) if w[8] not in ("inf", "nan", "-nan") else float("inf"),
-                                                    "nonfinite": int(w[9]), "asg": w[10] if len(w) > 10 else ""})
+                                                    "nonfinite": int(w[9]), "asg": w[10] if len(w) > 10 else "",
+                                                    "m": int(w[11]) if len(w) > 11 else 0,
+                                                    "team": int(w[12]) if len(w) > 12 else 0})
                 elif w[0] == "V" and int(w[1]) in res:
                     res[int(w[1])]["values"] = [float.fromhex(x) if x not in ("inf", "-inf", "nan", "-nan") else float("nan")
                                                 for x in w[3:3 + int(w[2])]]
@@ -361,13 +394,16 @@ def run_cases(ctx, exe, cases, combos, timeout=900, env=None):
     return res
 
 
-def judge(ctx, cases, res, combos, stats):
+def judge(ctx, cases, res, combos, stats, env=None):
     """spec on the implementation's own output: all combinations agree with the single thread"""
     n_eval = 0
+    extra = {"env": env} if env else {}
+    envtxt = (" [environment %s]" % " ".join("%s=%s" % kv for kv in sorted(env.items()))) if env else ""
     for c in cases:
         r = res[c["id"]]
+        c = dict(c, **extra)
         if r["crash"]:
-            ctx.violation(dict(c, combos=combos), "the region aborts / hangs (memory error, sanitizer, timeout): "
+            ctx.violation(dict(c, combos=combos), "the region aborts / hangs (memory error, sanitizer, timeout)%s: " % envtxt
                           + str(r["crash"])[:700])
             continue
         if r["bad"]:
@@ -379,8 +415,12 @@ def judge(ctx, cases, res, combos, stats):
             continue
         n_eval += len(r["rows"])
         ref = r["rows"][0]
+        for row in r["rows"]:
+            if row.get("team"):
+                tk = "teams_granted(context:requested threads -> team sizes seen)%s" % (" under " + envtxt.strip(" []") if env else "")
+                stats.setdefault(tk, {}).setdefault("%d:%d" % (row.get("m", 0), row["t"]), set()).add(row["team"])
         if c["region"] in ("mds", "mdsl", "diff", "tri", "cli") and c["N"] >= 8:
-            stats.setdefault("_asg", set()).update((c["id"], row["asg"]) for row in r["rows"])
+            stats.setdefault("_asg", set()).update((c["id"], row["asg"]) for row in r["rows"] if not row.get("m"))
             stats["assignment_tracked_cases"] = stats.get("assignment_tracked_cases", 0) + 1
         if "values" in r and c["region"] in ("mds", "mdsl", "cli"):
             exp = sym_expected(c)
@@ -422,9 +462,18 @@ def judge(ctx, cases, res, combos, stats):
                 elif row["hash"] != ref["hash"]:
                     stats["reassociation_only"] = stats.get("reassociation_only", 0) + 1
             if bad:
+                m = row.get("m", 0)
+                where = ""
+                if m or env:
+                    where = " context=%d (%s; the team the runtime granted there: %s thread(s))%s" % (
+                        m, CONTEXT_NAMES.get(m, "?"), row.get("team") or "?", envtxt)
+                    if m in (1, 2):
+                        bad = bad.replace("single-threaded one", "single-threaded plain call on the same data (three data sets, "
+                                          "one per outer thread)")
+                mine = [x for x in r["diffs"] if x.split()[:3] == [str(row["t"]), str(row["k"]), str(row["c"])]] or r["diffs"]
                 ctx.violation(dict(c, combos=combos),
-                              "%s: threads=%d schedule=%d chunk=%d: %s; first differing entries (index ref value): %s" % (
-                                  c["region"], row["t"], row["k"], row["c"], bad, "; ".join(r["diffs"][:3])))
+                              "%s: threads=%d schedule=%d chunk=%d%s: %s; first differing entries (index ref value): %s" % (
+                                  c["region"], row["t"], row["k"], row["c"], where, bad, "; ".join(mine[:3])))
                 break
     return n_eval
 
@@ -804,12 +853,68 @@ def witness_cases(ctx, name, quick, desc=None):
     return cases
 
 
+TEAM_COMBOS = ["1:1:0", "4:1:0", "4:1:0:1", "3:2:1:1", "4:1:0:2", "2:2:1:2", "32:1:0:3", "16:2:1:3"]
+
+
+def team_search(ctx, exe, rg, desc, stats):
+    """the distribution descriptor of a region is rejected (Par_Team_Model.dist_ok): the iteration space is not covered
+    exactly once by every team that may run it.  The witness environment comes from the model (c15_dist_max_refuted /
+    c15_dist_orphan_refuted: a team smaller than omp_get_max_threads(); a caller's team of more than one thread); it is
+    realised on the implementation by the execution contexts of the harness."""
+    d = rg.get("dist") or ["DUnknown"]
+    name = rg["name"]
+    if d[0] == "DWorkshare" and not d[1]:
+        why = ("%s: %s — one call of the routine from a thread of an application's parallel region executes only that "
+               "thread's share of the loop (model: c15_dist_orphan_refuted; e.g. a caller's team of 3, static schedule, 5 "
+               "iterations: thread 0 runs 0 and 3, iterations 1 2 4 of ITS data are never executed)" % (name, desc.get("dist_what")))
+    elif d[0] == "DCyclic":
+        st = d[2][0]
+        if d[1] != "FirstTid":
+            why = "%s: %s — the first iteration of a thread is not its thread number inside the region" % (name, desc.get("dist_what"))
+        elif st == "SrcMaxThreads":
+            why = ("%s: %s — whenever the team that runs the region is smaller than omp_get_max_threads() (the routine called "
+                   "from inside an application's parallel region with nested parallelism off: team of 1; OMP_THREAD_LIMIT below "
+                   "OMP_NUM_THREADS; OMP_DYNAMIC) the iterations i with i mod max >= team are executed by NO thread and their "
+                   "rows keep whatever memory held (model: c15_dist_max_refuted, c15_region_team_partial; e.g. max = 4, team = 1, "
+                   "5 rows: rows 1 2 3 are never written)" % (name, desc.get("dist_what")))
+        else:
+            why = ("%s: %s — the stride is not the size of the team that runs the region (omp_get_num_threads() evaluated "
+                   "inside it): iterations are lost or executed twice when the two differ" % (name, desc.get("dist_what")))
+    else:
+        why = "%s: a parallel region whose distribution of the iterations to the threads is not recognised (%s)" % (
+            name, desc.get("dist_what") or "no worksharing loop, no cyclic hand-made schedule")
+    cases = witness_cases(ctx, name, ctx.quick, desc)
+    if not cases:
+        hit = api_search(ctx, desc, stats)
+        if hit is not None:
+            ctx.violation(hit[0], why + " — confirmed through the public API: " + hit[1])
+            return True
+        ctx.unshown(why + " — no region-level driver; not confirmed on the implementation")
+        return False
+    for env in (None, LIMIT_ENV):
+        combos = TEAM_COMBOS if env is None else LIMIT_COMBOS
+        res = run_cases(ctx, exe, cases, combos, timeout=600, env=env)
+        before = len(ctx._violations)
+        stats["search_runs"] = stats.get("search_runs", 0) + judge(ctx, cases, res, combos, stats, env=env)
+        if len(ctx._violations) > before:
+            case, observed = ctx._violations[-1][0], ctx._violations[-1][1]
+            if ctx.violation({"kind": "team", "region": name, "dist": d, "case": case, "combos": combos, "env": env},
+                             why + " — confirmed: " + str(observed)[:600]):
+                ctx._violations.insert(0, ctx._violations.pop())      # the explanation first (vlib prints the first five)
+            return True
+    ctx.unshown(why + " — not confirmed on the implementation (every execution context gave the serial result)")
+    return False
+
+
 def search(ctx, exe, det, tr, stats):
     """an obligation failed: find a concrete failing configuration and confirm it on the implementation"""
     found = False
     combos = ["1:1:0", "2:2:1", "3:2:1", "8:2:1", "16:2:1", "8:1:1", "16:1:1", "4:2:1", "8:3:0", "16:3:0"]
     texe = None
     for i, rg in enumerate(det.get("regions", [])):
+        if rg["shared_ok"] and not rg["stale"] and not rg.get("dist_ok", True):
+            found = team_search(ctx, exe, rg, tr["regions"][i], stats) or found
+            continue
         if rg["shared_ok"] and not rg["stale"]:
             continue
         desc = tr["regions"][i]
@@ -985,6 +1090,14 @@ def run(ctx):
     cases += gen_cases(ctx, quick)
     res = run_cases(ctx, exe, cases, combos, timeout=1500 if not quick else 300)
     n_eval = judge(ctx, cases, res, combos, stats)
+    # the same cases in a process that starts under a thread limit below the thread count it asks for
+    lim_cases = [dict(c, id=20000 + c["id"]) for c in cases if c["region"] not in ITER]
+    if quick:
+        lim_cases = [c for c in lim_cases if c["N"] <= 33]
+    res_lim = run_cases(ctx, exe, lim_cases, LIMIT_COMBOS, timeout=900 if not quick else 300, env=LIMIT_ENV)
+    n_eval += judge(ctx, lim_cases, res_lim, LIMIT_COMBOS, stats, env=LIMIT_ENV)
+    res.update(res_lim)
+    stats["thread_limit_cases"] = len(lim_cases)
     large = large_cases(ctx, quick)
     # generous timeout: if the library stopped logging progress lines the t-SNE cases run all 1000 iterations
     # (about 80 s per combination in the quick build) instead of 51 — slow, but not a hang
@@ -1019,6 +1132,9 @@ def run(ctx):
             for c, rep in races[:3]:
                 ctx.violation(dict(c, combos=["4:2:1", "8:1:1", "3:1:0"], tsan=True),
                               "ThreadSanitizer+Archer (clang/libomp build) reports a data race inside tapkee: " + rep)
+    for k_ in list(stats):
+        if k_.startswith("teams_granted"):
+            stats[k_] = {a: sorted(b) for a, b in sorted(stats[k_].items())}
     if "_asg" in stats:
         stats["distinct_iteration_to_thread_maps_observed (varies from run to run: dynamic schedules)"] = len(stats.pop("_asg"))
     for c in cases:
@@ -1033,15 +1149,22 @@ def run(ctx):
         rule="one evaluation = one execution of one OpenMP region under one (threads, schedule kind, chunk) "
              "combination, compared entrywise with the single-threaded execution of the same input (dense results: "
              "bit-identical; sparse weight matrices: max abs diff <= 1e-10 x largest entry); case counts are fixed by "
-             "the tier; non-trivial = N >= 3; distinct by hash of the case parameters",
+             "the tier; non-trivial = N >= 3; distinct by hash of the case parameters; a combination with an execution "
+             "context (called from inside an outer parallel region of 3 threads with nested parallelism off / on: three data "
+             "sets, one per outer thread; omp_set_dynamic(1); the second invocation under OMP_THREAD_LIMIT=2 OMP_NUM_THREADS=4) "
+             "counts as one evaluation too",
         samples=[{k: c[k] for k in ("region", "N", "k", "d", "L", "dim", "seed", "int")} for c in cases[:3] + cases[-3:]],
-        histogram={"regions": hist, "N": sizes, "combinations(threads:kind:chunk)": combos, "stats": stats,
+        histogram={"regions": hist, "N": sizes, "combinations(threads:kind:chunk[:context])": combos,
+                   "contexts": {str(k): v for k, v in CONTEXT_NAMES.items()},
+                   "thread_limit_invocation": {"env": LIMIT_ENV, "combinations": LIMIT_COMBOS}, "stats": stats,
                    "translator": {"regions_found": [r["name"] for r in tr["regions"]] if tr else [],
                                   "table_equals_committed": (vlib._strip_coq_comments(text) == vlib._strip_coq_comments(committed)) if text else False,
                                   "hlle_exprs_found": bool(tr and tr["hlle"])},
                    "tsan_archer": tsan},
         trusted_base=TRUSTED,
         assumptions=["callbacks passed to tapkee are reentrant (no shared mutable state)",
+                     "the OpenMP runtime executes every iteration of a worksharing loop exactly once on the team the construct "
+                     "binds to (hypothesis valid_asg (e_sched e) of c15_dist_ok_valid)",
                      "inputs finite; k < N; HLLE cases use k >= 1 + d + d(d+1)/2",
                      "the schedule kinds exercised are those libgomp offers (static, dynamic, guided with chunks); "
                      "the theorem quantifies over all assignments and interleavings of the model"],
@@ -1056,6 +1179,11 @@ def replay(ctx, case):
         print("worst relative difference from the single-threaded run: %s" % stats.get("embed_worst_relative_difference"))
         print("replay: property C15 %s on this input" % ("FAILS" if ctx.has_violation() else "holds"))
         return 1 if ctx.has_violation() else 0
+    if kind == "team":
+        inner = case.get("case") or {}
+        print("region %s: distribution descriptor %s (rejected by Par_Team_Model.dist_ok)" % (case.get("region"), case.get("dist")))
+        case = dict(inner, combos=case.get("combos", TEAM_COMBOS), env=case.get("env"))
+        kind = "run"
     if kind == "run" and "region" not in case:
         print("replay: unknown case format")
         return 2
@@ -1086,12 +1214,17 @@ def replay(ctx, case):
         return rc
     exe = build_harness(ctx)
     combos = case.get("combos", COMBOS_QUICK)
+    env = case.get("env") or None
     c = dict(case, id=case.get("id", 1))
-    res = run_cases(ctx, exe, [c], combos)
-    judge(ctx, [c], res, combos, stats)
+    c.pop("env", None)
+    res = run_cases(ctx, exe, [c], combos, env=env)
+    judge(ctx, [c], res, combos, stats, env=env)
     r = res[c["id"]]
+    if env:
+        print("environment: %s" % env)
     for row in r["rows"]:
-        print("threads=%d kind=%d chunk=%d hash=%s maxdiff=%.3g" % (row["t"], row["k"], row["c"], row["hash"], row["maxd"]))
+        print("threads=%d kind=%d chunk=%d context=%d team=%s hash=%s maxdiff=%.3g" % (
+            row["t"], row["k"], row["c"], row.get("m", 0), row.get("team"), row["hash"], row["maxd"]))
     for d in r["diffs"][:6]:
         print("  differs: " + d)
     if r["crash"]:
